@@ -75,7 +75,17 @@ func (fc *FaucetSmartContract) setSC(sc *smartcontractinterface.SmartContract, _
 	fc.SmartContractExecutionStats["token refills"] = metrics.GetOrRegisterHistogram(fmt.Sprintf("sc:%v:func:%v", fc.ID, "token refills"), nil, metrics.NewUniformSample(1024))
 }
 
+// pourAmount is the amount a pour transaction asks for: the transaction value when it is
+// positive and below the configured maximum, otherwise the default pour amount.
+func pourAmount(t *transaction.Transaction, gn *GlobalNode) currency.Coin {
+	if t.Value > 0 && t.Value < gn.MaxPourAmount {
+		return t.Value
+	}
+	return gn.PourAmount
+}
+
 func (un *UserNode) validPourRequest(t *transaction.Transaction, balances c_state.StateContextI, gn *GlobalNode) (bool, error) {
+	amount := pourAmount(t, gn)
 	smartContractBalance, err := balances.GetClientBalance(gn.ID)
 	if err == util.ErrValueNotPresent {
 		logging.Logger.Error("faucet sc state was not initialized", zap.String("ID", gn.ID))
@@ -84,11 +94,11 @@ func (un *UserNode) validPourRequest(t *transaction.Transaction, balances c_stat
 	if err != nil {
 		return false, common.NewError("invalid_request", fmt.Sprintf("getting faucet balance resulted in an error: %v", err.Error()))
 	}
-	if gn.PourAmount > smartContractBalance {
+	if amount > smartContractBalance {
 		return false, common.NewError("invalid_request", fmt.Sprintf("amount asked to be poured (%v) exceeds contract's wallet ballance (%v)", t.Value, smartContractBalance))
 	}
 
-	totalAmount, err := currency.AddCoin(gn.PourAmount, un.Used)
+	totalAmount, err := currency.AddCoin(amount, un.Used)
 	if err != nil {
 		return false, common.NewError("invalid_request", fmt.Sprintf("amount asked to be poured (%v) plus previous amount (%v) is not a valid currency. error: %v", gn.PourAmount, un.Used, err))
 	}
@@ -98,7 +108,7 @@ func (un *UserNode) validPourRequest(t *transaction.Transaction, balances c_stat
 				t.Value, un.Used, gn.PeriodicLimit, gn.IndividualReset.String()))
 	}
 
-	totalGAmount, err := currency.AddCoin(gn.PourAmount, gn.Used)
+	totalGAmount, err := currency.AddCoin(amount, gn.Used)
 	if err != nil {
 		return false, common.NewError("invalid_request", fmt.Sprintf("amount asked to be poured (%v) plus global used amount (%v) is not a valid currency. error: %v", gn.PourAmount, gn.Used, err))
 	}
@@ -162,12 +172,8 @@ func (fc *FaucetSmartContract) pour(t *transaction.Transaction, _ []byte, balanc
 
 	ok, err := user.validPourRequest(t, balances, gn)
 	if ok {
-		var pourAmount = gn.PourAmount
-		if t.Value > 0 && t.Value < gn.MaxPourAmount {
-			pourAmount = t.Value
-		}
 		tokensPoured := fc.SmartContractExecutionStats["tokens Poured"].(metrics.Histogram)
-		transfer := state.NewTransfer(t.ToClientID, t.ClientID, pourAmount)
+		transfer := state.NewTransfer(t.ToClientID, t.ClientID, pourAmount(t, gn))
 		if err := balances.AddTransfer(transfer); err != nil {
 			logging.Logger.Error("pour_failed: error adding transfer",
 				zap.String("txn", t.Hash),
